@@ -77,7 +77,20 @@ def strategy_(draw, tier):
             spec['calls'][-1]['force'] = False
         return spec
     spec = draw(struct.histories(viewers=False, residents=True, inc_ok=True,
-                                 max_ticks=4, step_op_ok=False))
+                                 max_ticks=4, step_op_ok=True))
+    # resident flow steps may be parallel too (they share a layer with a step
+    # operator)
+    all_res = list(spec['residents'].values()) + [
+        op['resident'] for b in spec['ticks'] for op in b if op.get('resident')]
+    if not spec['op_is_step'] and draw(st.booleans()):
+        # step operators are the interesting case for parallel steps
+        spec['op_is_step'] = True
+        for res_ in all_res:
+            if res_['ts'] not in (1.0, 2.0):
+                res_['ts'] = 1.0
+    for res_ in all_res:
+        if res_.get('step') and draw(st.integers(0, 3)) > 0:
+            res_['parallel_step'] = True
     # parallel residents: initial ones by key, generated ones by flag
     par = []
     for key in sorted(spec['residents']):
